@@ -124,7 +124,7 @@ impl Check for DetCheck {
         Spec {
             id: "C19",
             level: "exploration",
-            rule: "generated: a tree-engine history (setup, code stores incl. duplicates and explicit ids, instantiate/instantiate2, nested message trees with failures, block updates, queries) plus a second unrelated history; the first is executed (A) alone on a fresh App, (B) interleaved step by step with the second history on another App (another bech32 prefix) in the same thread and with a third App whose Api is the other checksum variant with the same prefix and which keeps validating the Bech32m spellings of the users' addresses, (D) in a second OS thread concurrently with a third thread running the second history, and (A') alone again afterwards; transcripts (Ok/Err, events, data, invocation traces, code ids, addresses, checksums, storage digest per step and final) must be identical. Non-trivial: history with >=1 failing call, >=1 classic instantiation and >=1 code stored after setup, interleaved with >=5 steps of the other instance; distinct = distinct serialised case",
+            rule: "generated: a tree-engine history (setup, code stores incl. duplicates and explicit ids, instantiate/instantiate2, nested message trees with failures, block updates, queries) plus a second unrelated history; the first is executed (A) alone on a fresh App, (B) interleaved step by step with the second history on two other Apps (one with another bech32 prefix, one with the same prefix, hence the same addresses and ids) in the same thread and with a further App whose Api is the other checksum variant with the same prefix and which keeps validating the Bech32m spellings of the users' addresses, (D) in a second OS thread concurrently with a third thread running the second history, and (A') alone again afterwards; transcripts (Ok/Err, events, data, invocation traces, code ids, addresses, checksums, storage digest per step and final) must be identical. Non-trivial: history with >=1 failing call, >=1 classic instantiation and >=1 code stored after setup, interleaved with >=5 steps of the other instance; distinct = distinct serialised case",
             assumptions: vec!["only Ok/Err is compared for errors, not error text", "a dependence on state no generated operation touches, or on wall-clock time at a coarser grain than one run, is not observable"],
             floor_quick: 60,
         }
@@ -159,12 +159,18 @@ impl Check for DetCheck {
         b.w.enter();
         let aliens: Vec<String> = b.w.fx.users.iter().map(|u| super::model::alien_text(u)).collect();
         let mut flavour = cw_multi_test::AppBuilder::new().with_api(cw_multi_test::MockApiBech32m::new("cosmwasm")).build(cw_multi_test::no_init);
+        // a fourth one: the same kind of App with the SAME prefix running the other history, so that
+        // the two instances own contracts and codes under the same addresses and ids with different content
+        let mut c2 = Runner::new(&case.other);
         let mut tb = vec![];
         let mut interleaved = 0;
         while !b.done() {
             if !c.done() {
                 let _ = c.step();
                 interleaved += 1;
+            }
+            if !c2.done() {
+                let _ = c2.step();
             }
             for t in &aliens {
                 let _ = flavour.wrap().query_balance(t.clone(), "uatom");
